@@ -54,7 +54,10 @@ func (t *Trace) Len() int {
 type Faults struct {
 	mu   sync.Mutex
 	n    int
-	Plan map[int]string // call index -> fault kind ("err", "dup", "errafter")
+	Plan map[int]string // call index -> fault kind ("err", "dup", "errafter", "cancel")
+	// Cancel, if set, is called when the plan says "cancel" for a call: the caller's context becomes done while that
+	// boundary call is in flight; the call itself then proceeds and succeeds (the SDK's collaborators ignore ctx)
+	Cancel func()
 }
 
 // Next returns the index of this call and the fault to inject ("" for none).
@@ -66,7 +69,14 @@ func (f *Faults) Next() (int, string) {
 	defer f.mu.Unlock()
 	i := f.n
 	f.n++
-	return i, f.Plan[i]
+	k := f.Plan[i]
+	if k == "cancel" {
+		if f.Cancel != nil {
+			f.Cancel()
+		}
+		k = ""
+	}
+	return i, k
 }
 
 // Reset installs a new plan and restarts numbering.
